@@ -54,7 +54,7 @@ def execute(cfg, items, dump):
 
 def check_case(cfg, items, dump):
     """-> (bad, model, obs, res, decls).  bad = list of (what, subject, detail, message)."""
-    model = M.Model(cfg, items, dump)
+    model = M.expectation(cfg, items, dump)
     decls, res = execute(cfg, items, dump)
     if res.error is not None:
         if model.conflict:
@@ -218,7 +218,7 @@ def _work(chunk):
     fam, ci, first, k_all, k_core = chunk
     part = Part()
     sigs = Sigs()
-    cfg = M.DEFAULT_PREFIX_CONFIGS[ci - 100] if fam == 'C' else M.CONFIGS[ci]
+    cfg = M.SMALL_CONFIGS[ci - 100] if fam == 'C' else M.CONFIGS[ci]
     menu = M.config_menu(cfg)
     classes = class_table(menu)
     n = len(menu)
@@ -324,7 +324,7 @@ def run(ctx):
         ext = [i for i, it in enumerate(menu) if it['id'] not in CONTEXT_IDS and it['k'] in ('fn', 'const')]
         for first in range(-1, len(ext)):
             chunks.append(('B', ci, first, b['KB'], 0))
-    for i, c in enumerate(M.DEFAULT_PREFIX_CONFIGS):
+    for i, c in enumerate(M.SMALL_CONFIGS):
         for first in range(len(M.config_menu(c))):
             chunks.append(('C', 100 + i, first, 0, 0))
     full = M.menu('Foo', 'foo')
@@ -338,16 +338,17 @@ def run(ctx):
                  'an irrelevant verb are used in menu order. non-trivial = set for which the model gave at least one '
                  'MUST (present / left out / placement) verdict. Family C: namespaces scanned without explicit symbol '
                  'prefixes (%s): every subset of an %d-item API spelled with the documented default prefix, all orders '
-                 'and dump modes; the namespace c:symbol-prefixes / c:identifier-prefixes attributes are compared too '
+                 'and dump modes; likewise two configurations of one namespace with nested prefixes (Foo+FooExt / foo+foo_ext, '
+                 'both listing orders) over every subset of an %d-item API; the namespace c:symbol-prefixes / c:identifier-prefixes attributes are compared too '
                  '(in every family)'
                  % (b['K_ALL'], b['K_CORE'], len(CONTEXT_IDS), b['KB'], len(configs),
-                    ', '.join('%s->%s' % x for x in M.DEFAULT_PREFIX_NAMES), len(M.DEFAULT_PREFIX_MENU)),
+                    ', '.join('%s->%s' % x for x in M.DEFAULT_PREFIX_NAMES), len(M.DEFAULT_PREFIX_MENU), len(M.NESTED_MENU)),
             bounds={'family_A_max_set_all': b['K_ALL'], 'family_A_max_set_core': b['K_CORE'],
                     'family_B_max_extension': b['KB'], 'configurations': [c['id'] for c in M.CONFIGS],
                     'menu_full': len(full), 'menu_core': len([i for i in full if i['core']]),
                     'menu_per_config': {c['id']: len(M.config_menu(c)) for c in M.CONFIGS},
-                    'dump_modes': DUMPS, 'family_C_namespaces': [c['id'] for c in M.DEFAULT_PREFIX_CONFIGS],
-                    'family_C_menu': M.DEFAULT_PREFIX_MENU})
+                    'dump_modes': DUMPS, 'family_C_configurations': [c['id'] for c in M.SMALL_CONFIGS],
+                    'family_C_menus': {'default-*': M.DEFAULT_PREFIX_MENU, 'nested-*': M.NESTED_MENU}})
     ctx.set(calibration=calibrate())
     sigs = Sigs()
     # big partitions first (family A, small first index), then seed rotation (dispatch order only)
@@ -373,7 +374,11 @@ def run(ctx):
         'UNSPECIFIED: top-level name collisions (scanner may abort), underscore-prefixed type names and struct tags, '
         'whether a plain function is nested under its longest-prefix type or left at top level, C types known only '
         'under another prefix of the namespace, constructor-looking names other than <type>_new / _new_* / _newv, '
-        'a function to which both the method and the constructor rule apply',
+        '(constructor)-annotated functions whose type is not registered or whose name / return type does not fit',
+        'several prefixes of the scanned namespace matching one name (nested-* configurations): which one is stripped is '
+        'UNSPECIFIED - a GIR name equal to the C name minus either matching prefix is accepted; MUST remain: described '
+        'exactly once, c:identifier / c:type, no abort unless some choice of prefixes collides, and a function that is a '
+        'method / constructor of its type under both consistent choices (same prefix for identifiers and symbols) is one',
         'dependency GIRs deps/c04/*.gir and deps/*.gir are trusted inputs',
     ]
     if ctx.cov['evaluations'] < 1000 or len(ctx._outcomes) < 60 or len(ctx._nontrivial) < 500:
